@@ -94,3 +94,9 @@ Proof. exact footprint_path_order. Qed.
 
 Theorem C15_footprint_rank_exists : forall w, Core w -> exists rank, mono w rank.
 Proof. exact mono_rank_exists. Qed.
+
+Theorem C15_path_upward_blocking_refuted :
+  exists c,
+    reachable (init [ lock_trace (cfg_flag 9 100) 10 (LPath 2) ex_world;
+                      [Acq true Wr (Le 1); Acq true Wr (Le 2); Rel (Le 2); Rel (Le 1)] ]) c /\ stuck c.
+Proof. exact path_vs_downward_writer_deadlock. Qed.
